@@ -77,3 +77,16 @@ package repl
 //@   on-call OpenFile#1 temporary-starts-empty: hasbits($arg1, os.O_TRUNC)
 //@   on-call Rename all-writes-succeeded: err == nil
 //@   on-call Rename whole-history-written: rangeindex + 1 >= len(h.forms)
+//@   on-call Write one-tab-record-per-form: $arg0_from == "TabAppend"
+
+// C20: what is written back after a clear is what a restart decodes: every
+// remaining form, in order, each as one tab-joined record (the encoding
+// History.Load and Stash.LoadExpanded read), into a file that starts empty.
+//@ func repl.(*Stash).Clear
+//@   property C20
+//@   on-call OpenFile starts-empty: hasbits($arg1, os.O_TRUNC)
+//@   on-call Write one-tab-record-per-form: $arg0_from == "TabAppend"
+//@ func repl.(*History).Clear
+//@   property C20
+//@   on-call OpenFile starts-empty: hasbits($arg1, os.O_TRUNC)
+//@   on-call Write one-tab-record-per-form: $arg0_from == "TabAppend"
